@@ -68,7 +68,7 @@ func c14(r *core.Run) {
 	r.Rule("C14/R3", "consumed: every path through an acting effect deletes the form, with the key arguments it was loaded by")
 	r.Rule("C14/R5", "the acting effect concerns the prover named on the form: the proof refreshed / the prover removed is selected by msg.Prover or form.Prover and never by the signer")
 	r.Rule("C14/R6", "a form never names the prover it concerns: each component of the exclusion key is extracted from the candidate's address by the same term as from the requesting prover's address, and every candidate that reaches the comparison has passed the shape tests under which the prover's key is set (the filter is reflexive)")
-	r.Rule("C14/R4", "form construction: the form write is behind Found(form)=false, ErrNil(prover lookup), Found(provider) and Cmp(len(candidates) >= Param(AttestFormSize)); entries ⊵ the filtered active-provider list and no message field")
+	r.Rule("C14/R4", "form construction: the form write is behind Found(form)=false, ErrNil(prover lookup), Found(provider) and Cmp(len(candidates) >= Param(AttestFormSize)); entries ⊵ the filtered active-provider list and no message field; inside the loop of the function that writes the form, the candidate list is read at a position computed from loop counters, constants and lengths only (a drawn position can name one provider twice)")
 	hs, err := p.Handlers()
 	if err != nil {
 		r.Undecided("C14/R1", "handlers", "", err.Error())
@@ -507,6 +507,82 @@ func c14(r *core.Run) {
 				return rel == ">=" || rel == ">"
 			}
 		}, "Cmp(len(candidates) >= Param(AttestFormSize))")
+		// entries are distinct candidates: inside the form-filling loop the candidate list is read at the loop's own
+		// position (an induction variable or the ranged element), never at a computed index that can repeat
+		nPick := 0
+		for _, ff := range p.Summary(h.Fn).Funcs {
+			if isAccessorFn(p, ff) || core.ModuleOf(ff) != "storage" {
+				continue
+			}
+			// the function that fills and stores the form
+			buildsForm := false
+			for _, e := range p.Effects(ff) {
+				if performsDirectly(p, ff, e, "Set", fs.prefix) {
+					buildsForm = true
+				}
+			}
+			if !buildsForm {
+				continue
+			}
+			allInstrs(ff, func(in ssa.Instruction) {
+				var base, idx ssa.Value
+				switch x := in.(type) {
+				case *ssa.IndexAddr:
+					base, idx = x.X, x.Index
+				case *ssa.Index:
+					base, idx = x.X, x.Index
+				default:
+					return
+				}
+				if !core.InCycle(in.Block()) || !strings.Contains(base.Type().String(), "Providers") {
+					return
+				}
+				for {
+					if cv, ok := idx.(*ssa.Convert); ok {
+						idx = cv.X
+						continue
+					}
+					break
+				}
+				nPick++
+				// the position is a function of the loop's own counters, constants and lengths only; a value drawn
+				// from a call (a random source) or loaded from elsewhere can repeat
+				okIdx := true
+				seen := map[ssa.Value]bool{}
+				var walk func(v ssa.Value)
+				walk = func(v ssa.Value) {
+					if seen[v] || !okIdx {
+						return
+					}
+					seen[v] = true
+					switch y := v.(type) {
+					case *ssa.Phi:
+						for _, e := range y.Edges {
+							walk(e)
+						}
+					case *ssa.BinOp:
+						walk(y.X)
+						walk(y.Y)
+					case *ssa.Convert:
+						walk(y.X)
+					case *ssa.Const, *ssa.Parameter:
+					case *ssa.Extract:
+						if _, isNext := y.Tuple.(*ssa.Next); !isNext {
+							okIdx = false
+						}
+					case *ssa.Call:
+						if b, isB := y.Call.Value.(*ssa.Builtin); !isB || b.Name() != "len" {
+							okIdx = false
+						}
+					default:
+						okIdx = false
+					}
+				}
+				walk(idx)
+				r.Check(okIdx, "C14/R4", fs.key+":candidate-picked-at-loop-position:"+ff.Name(), p.InstrPos(in), "the candidate list is read at the loop's own position", "a candidate is picked at a computed position (a random draw, say) inside the loop that fills the form: the same provider can be picked twice, one signature then counts twice and fewer distinct providers than the minimum reach the quorum")
+			})
+		}
+		_ = nPick
 		// entries provenance
 		for _, fn := range p.Summary(h.Fn).Funcs {
 			for _, e := range p.Effects(fn) {
